@@ -156,3 +156,32 @@ impl Quiescence {
         self.search.verif_quiescence(bitboard)
     }
 }
+
+// ---- the transposition table as the search holds it ---------------------------------------------
+
+/// put / get / clear / len / load_factor on the very table object a `Search` owns (its
+/// `state.transposition_table`), through the `TranspositionTable` trait the search calls
+pub struct SearchTable {
+    search: crate::engine::search::Search<NullTx, SimpleHeuristic, crate::engine::move_order::MvvLvaMoveOrder>,
+    _tx: std::sync::mpsc::Sender<crate::engine::search::SearchMessage>,
+}
+
+impl SearchTable {
+    pub fn new() -> Self {
+        let (tx, rx) = std::sync::mpsc::channel();
+        Self { search: crate::engine::search::Search::new(std::sync::Arc::new(NullTx), rx, SimpleHeuristic, crate::engine::move_order::MvvLvaMoveOrder, EngineOptions::default()), _tx: tx }
+    }
+
+    /// node_type: 0 exact, 1 lower bound, 2 upper bound
+    pub fn put(&mut self, key: ZobristHash, depth: usize, value: i32, node_type: u8) {
+        self.search.verif_tt_put(key, depth, value, node_type);
+    }
+
+    pub fn get(&mut self, key: ZobristHash) -> Option<(usize, i32, u8)> {
+        self.search.verif_tt_get(key)
+    }
+
+    pub fn clear(&mut self) { self.search.verif_tt().clear(); }
+    pub fn len(&mut self) -> usize { self.search.verif_tt().len() }
+    pub fn load_factor(&mut self) -> f32 { self.search.verif_tt().load_factor() }
+}
